@@ -209,10 +209,20 @@ def trace(
 class StaticHandler(StatefulHandler):
     def __init__(self):
         self.traces: dict[StaticAddress, Trace[Any]] = {}
+        self.visited: list[tuple[Any, ...]] = []
+
+    def visit(self, addr):
+        """Every address may be visited once. Addresses are hierarchical: `"x"`, `("x",)` and
+        anything below `"x"` (such as `("x", "y")`) collide with a call traced at `"x"`."""
+        path = addr if isinstance(addr, tuple) else (addr,)
+        for seen in self.visited:
+            common = min(len(seen), len(path))
+            if seen[:common] == path[:common]:
+                raise AddressReuse(addr)
+        self.visited.append(path)
 
     def record(self, addr, trace):
-        if addr in self.traces:
-            raise AddressReuse(addr)
+        self.visit(addr)
         self.traces[addr] = trace
 
     @abstractmethod
@@ -313,6 +323,7 @@ class AssessHandler(StaticHandler):
         gen_fn: GenerativeFunction[Any],
         args: tuple[Any, ...],
     ):
+        self.visit(addr)
         submap = self.get_subsample(addr)
         if submap.static_is_empty():
             raise MissingAddress(addr)
